@@ -14,6 +14,7 @@ Lemma K_CE_neq_CL : K_CE <> K_CL. Proof. vm_compute. discriminate. Qed.
 Lemma K_CE_neq_TE : K_CE <> K_TE. Proof. vm_compute. discriminate. Qed.
 
 Section Framing.
+Variable cfg : config.
 Variable C : callees.
 Variable k : kind.
 
@@ -235,7 +236,7 @@ Definition complete_ok (i : inflight) : Prop :=
   (forall ce, i_ce i = Some ce -> hmem K_CE (i_hdrs i) = true) /\
   (i_chunked i = false -> clr (i_hdrs i) = Some (blen (i_body i)) /\ te_absent_or_10 i).
 
-Lemma on_body_complete_framing v i b m : complete_ok i -> on_body_complete C k v i b = inl m -> framing_ok m.
+Lemma on_body_complete_framing i b m : complete_ok i -> on_body_complete cfg C k i b = inl m -> framing_ok m.
 Proof.
   intros (J1 & J2 & J3). unfold on_body_complete. rewrite cl_variant_repaired.
   destruct (match k with Server => _ | Client => false end); [discriminate|].
@@ -344,7 +345,7 @@ Lemma after_headers_J i b : i_phase i = PBody ->
   c_start C (i_line i) = SlOk (i_info i) -> (forall ce, i_ce i = Some ce -> hmem K_CE (i_hdrs i) = true) ->
   (i_chunked i = false -> (i_len i = None /\ i_body i = []) \/
                           exists r, i_len i = Some r /\ clr (i_hdrs i) = Some (blen (i_body i) + r) /\ te_absent_or_10 i) ->
-  match after_headers C k i b with
+  match after_headers cfg C k i b with
   | TBlocked s' => Jst s'
   | TMsg s' m => Jst s' /\ framing_ok m
   | TErr _ => True
@@ -352,7 +353,7 @@ Lemma after_headers_J i b : i_phase i = PBody ->
 Proof.
   intros Hph J1 J2 J4. unfold after_headers. pose proof (parse_body_J i b Hph J1 J2 J4) as PB.
   destruct (parse_body C i b) as [i' b'|i' b'|e]; [exact PB | | exact I].
-  destruct (on_body_complete C k true i' b') as [m|e] eqn:O; [|exact I].
+  destruct (on_body_complete cfg C k i' b') as [m|e] eqn:O; [|exact I].
   split; [exact I | eapply on_body_complete_framing; eauto].
 Qed.
 
@@ -360,7 +361,7 @@ Lemma on_headers_complete_spec i i' : on_headers_complete C k i = inl i' -> i' =
 Proof. unfold on_headers_complete. intros H. repeat dmatch; try discriminate; injection H as <-; reflexivity. Qed.
 
 Lemma after_startline_J i b : J i ->
-  match after_startline C k i b with
+  match after_startline cfg C k i b with
   | TBlocked s' => Jst s'
   | TMsg s' m => Jst s' /\ framing_ok m
   | TErr _ => True
@@ -368,7 +369,7 @@ Lemma after_startline_J i b : J i ->
 Proof.
   intros (J1 & J2 & J3). unfold after_startline. destruct (i_phase i) eqn:Ph.
   - destruct J3 as (Hb & Hl & Hc & Hce).
-    destruct (parse_headers (i_le i) (i_hdrs i) b) as [h b'|h b'|e]; [| |exact I].
+    destruct (parse_headers cfg (i_le i) (i_hdrs i) b) as [h b'|h b'|e]; [| |exact I].
     + unfold Jst, J. cbn. rewrite Ph. repeat split; auto. intros ce E. congruence.
     + destruct (on_headers_complete C k _) as [i1|e1] eqn:O; [|exact I].
       apply on_headers_complete_spec in O. subst i1.
@@ -378,7 +379,7 @@ Proof.
 Qed.
 
 Lemma turn_J s : Jst s ->
-  match turn_of C k s with
+  match turn_of cfg C k s with
   | TBlocked s' => Jst s'
   | TMsg s' m => Jst s' /\ framing_ok m
   | TErr _ => True
@@ -387,7 +388,7 @@ Proof.
   unfold Jst at 1, turn_of. destruct (cur s) as [i|] eqn:Cu; intros Hj.
   - apply after_startline_J, Hj.
   - unfold parse_startline.
-    destruct (if contains CRLF (buf s) then Some LE_CRLF else if contains [LF] (buf s) then Some LE_LF else None) as [le|].
+    destruct (if contains CRLF (buf s) then Some LE_CRLF else if allow_lf cfg && contains [LF] (buf s) then Some LE_LF else None) as [le|].
     2:{ unfold Jst. rewrite Cu. exact I. }
     destruct (cut (le_bytes le) (buf s)) as [[line rest]|]; [|exact I].
     destruct (c_start C line) as [info|c| |] eqn:CS; try exact I.
@@ -395,26 +396,26 @@ Proof.
 Qed.
 
 Lemma loop_J fuel : forall s acc, Jst s -> Forall framing_ok acc ->
-  match loop C k fuel s acc with (s', ms, _) => Jst s' /\ Forall framing_ok ms end.
+  match loop cfg C k fuel s acc with (s', ms, _) => Jst s' /\ Forall framing_ok ms end.
 Proof.
   induction fuel as [|f IH]; intros s acc Hj Ha; cbn [loop].
-  - destruct (buf s); split; auto; apply Forall_rev; exact Ha.
+  - destruct (buf s); split; auto; try exact I; apply Forall_rev; exact Ha.
   - destruct (buf s); [split; [exact Hj | apply Forall_rev; exact Ha]|].
-    pose proof (turn_J s Hj) as T. destruct (turn_of C k s) as [s'|s' m|e].
+    pose proof (turn_J s Hj) as T. destruct (turn_of cfg C k s) as [s'|s' m|e].
     + split; [exact T | apply Forall_rev; exact Ha].
     + destruct T as [T1 T2]. apply IH; [exact T1 | constructor; assumption].
-    + split; [exact Hj | apply Forall_rev; exact Ha].
+    + split; [exact I | apply Forall_rev; exact Ha].
 Qed.
 
 Theorem parse_framing s data : Jst s ->
-  match parse C k s data with (s', ms, _) => Jst s' /\ Forall framing_ok ms end.
+  match parse cfg C k s data with (s', ms, _) => Jst s' /\ Forall framing_ok ms end.
 Proof. intros Hj. unfold parse. apply loop_J; [exact Hj | constructor]. Qed.
 
 Fixpoint feed (s : pstate) (frags : list bytes) : pstate * list msg * option err :=
   match frags with
   | [] => (s, [], None)
   | f :: fr =>
-      match parse C k s f with
+      match parse cfg C k s f with
       | (s', ms, None) => match feed s' fr with (s2, ms2, oe) => (s2, ms ++ ms2, oe) end
       | (s', ms, Some e) => (s', [], Some e)   (* the erroring call hands out nothing *)
       end
@@ -425,7 +426,7 @@ Theorem feed_framing frags : forall s, Jst s ->
   match feed s frags with (_, ms, _) => Forall framing_ok ms end.
 Proof.
   induction frags as [|f fr IH]; intros s Hj; cbn [feed]; [constructor|].
-  pose proof (parse_framing s f Hj) as P. destruct (parse C k s f) as [[s' ms] [e|]].
+  pose proof (parse_framing s f Hj) as P. destruct (parse cfg C k s f) as [[s' ms] [e|]].
   - constructor.
   - destruct P as [P1 P2]. specialize (IH s' P1). destruct (feed s' fr) as [[s2 ms2] oe].
     apply Forall_app. split; assumption.
